@@ -56,7 +56,7 @@ func descObs(o agentmodel.Obs) string {
 var concModes = []string{"direct", "conn-per-client", "shared-pipelined-client", "mixed"}
 
 func runConcurrent(m *mon.M, pool []*testKey) {
-	total := m.N(96, 1000)
+	total := m.N(160, 1600)
 	k2 := []*testKey{keyByNm["ed25519"], keyByNm["ed25519b"], keyByNm["ecdsa256"], keyByNm["ed25519-cert"]}
 	m.Cases("conc", total, func(i int64, r *mrand.Rand) {
 		mode := int(i % 4)
@@ -87,7 +87,7 @@ func runConcurrent(m *mon.M, pool []*testKey) {
 		}
 		clients := make([]*cl, nClients)
 		var shared agent.ExtendedAgent
-		if mode == 2 {
+		if mode >= 2 {
 			shared = mk(true)
 		}
 		passes := [][]byte{[]byte("p1"), []byte("p2")}
@@ -101,10 +101,13 @@ func runConcurrent(m *mon.M, pool []*testKey) {
 			case 2:
 				x.ag, x.viaList = shared, true
 			default:
-				if c == 0 {
+				switch {
+				case c == 0:
 					x.ag = kr
-				} else {
-					x.ag, x.viaList = mk(c%2 == 0), true
+				case c == 1:
+					x.ag, x.viaList = mk(false), true
+				default: // the rest share one pipelined client
+					x.ag, x.viaList = shared, true
 				}
 			}
 			for n := 0; n < perClient; n++ {
